@@ -107,7 +107,10 @@ def step (st : St) (toks : List String) : St × String :=
     match (kv rest "n").bind String.toNat?, (kv rest "txs").bind (fun s => (splitComma s).mapM parseBlock),
         ((kv rest "ih").getD "1").toNat? with
     | some n, some bs, some ih =>
-      if bs.length = n ∧ 1 ≤ ih ∧ ih ≤ 1000 then ({ ih := ih, blocks := bs }, "ok") else (st, "bad-op")
+      let dis := (kv rest "discard").getD "0"
+      -- discard=1: storage.discard_abci_responses; the last responses record is written regardless
+      -- (state/store.go SaveABCIResponses), which is all the pipeline reads: same model
+      if bs.length = n ∧ 1 ≤ ih ∧ ih ≤ 1000 ∧ (dis = "0" ∨ dis = "1") then ({ ih := ih, blocks := bs }, "ok") else (st, "bad-op")
     | _, _, _ => (st, "bad-op")
   | "start" :: rest =>
     match (kv rest "crash").bind parseCrash with
@@ -165,6 +168,12 @@ def step (st : St) (toks : List String) : St × String :=
     | some n, some v, some fl, some tx, some ih =>
       let okList (s : String) (allowX : Bool) : Bool :=
         (splitComma s).all fun t => (allowX && t == "x") || t.toNat?.isSome
+      let optOk (k : String) : Bool := match kv rest k with
+        | some s => match s.toNat? with | some x => x ≤ 100 | none => false
+        | none => true
+      -- discard / noempty / retain: node options that do not change what the pipeline persists
+      -- about heights and calls (responses per height, empty blocks, pruning below RetainHeight)
+      if !(optOk "discard" && optOk "noempty" && optOk "retain") then (st, "bad-op") else
       if n < 1 ∨ n > 8 ∨ ih < 1 ∨ ih > 1000 ∨ (v ≠ "v0" ∧ v ≠ "v1") ∨ !okList fl true ∨ !okList tx false then (st, "bad-op") else
       let c0 : Chain := { ihPred := ih - 1, txs := fun _ => [] }
       let exitH := ih + n
@@ -188,7 +197,7 @@ def step (st : St) (toks : List String) : St × String :=
       let agree := (handshake c0 (crash d)).outcome == .ok && s'.disk.app.height == s'.disk.storeH
         && s'.disk.storeH == s'.disk.stateH && s'.disk.app.hash == s'.disk.stateHash
       (st, s!"done app={d.app.height} store={d.storeH} state={d.stateH} heq={b01 (d.app.hash == d.stateHash)} " ++
-        s!"wf={b01 (journalWF c0 d.app.journal)} hs={if agree then "agree" else "differ"} inc={";".intercalate incs}")
+        s!"wf={b01 (journalWF c0 d.app.journal)} hs={if agree then "agree" else "differ"} inc={if (kv rest "noempty").getD "0" != "0" ∨ tx ≠ "-" then "-" else ";".intercalate incs}")
     | _, _, _, _, _ => (st, "bad-op")
   | "mp" :: rest =>
     match kv rest "ver", (kv rest "pool").bind String.toNat? with
